@@ -49,7 +49,7 @@ SPEC = {
         "description of SELECT * are read and compared with a model: exactly the existing user objects, with type names, precision/scale, "
         "declared VARCHAR lengths, nullability, column order and comments as most recently declared. Sampling, not proof."
     ),
-    "level_note": "Trusted: the metadata model and its type table (13 declared types); SHOW PRIMARY KEYS and DESCRIBE VIEW are read but only checked for not listing dropped/internal objects.",
+    "level_note": "Trusted: the metadata model and its type table (13 declared types); key_sequence of composite keys and DESCRIBE VIEW are not checked.",
     "rule": (
         "one evaluation = one seeded DDL history (6-28 steps) with an observer pass after each step; non-trivial = the history contains a DROP, "
         "REPLACE, ALTER, CTAS/CLONE or restart after at least one CREATE; distinct = hash of the sequence of DDL kinds"
@@ -61,7 +61,7 @@ SPEC = {
     "mandatory_probes": {"any": ["observer_passes", "op_drop_table", "op_alter", "op_comment", "op_create_view", "restart", "two_databases", "cross_database_ddl"]},
 }
 
-HAZARDS = ["internal_leak", "recreate", "rename_table", "ctas_clone", "account_scope_without_database", "replace"]
+HAZARDS = ["internal_leak", "recreate", "rename_table", "ctas_clone", "account_scope_without_database", "replace", "describe_pk_flag"]
 
 
 def gen(rng: Any, prop: str, tier: str) -> dict[str, Any]:
@@ -104,6 +104,7 @@ def gen(rng: Any, prop: str, tier: str) -> dict[str, Any]:
         kind = rng.choices(["create", "drop", "alter_add", "alter_drop", "alter_rename_col", "rename_table", "comment", "view", "drop_view", "ctas", "clone", "schema", "restart", "noop"],
                            [12, 4, 4, 3, 3, 2, 5, 3, 1, 2, 2, 2, 2 if storage == "db_path" and not restarted and step > 2 else 0, 2])[0]
         mine = sorted(t for t in tables if t[0] == db)
+        nopk = [t for t in mine if not tables[t].get("pk")]  # DuckDB refuses ALTER on a table its primary-key index depends on
         if kind == "noop":
             # statements fakesnow turns into "nothing to do": the metadata must stay exactly as most recently declared
             t0 = rng.choice(mine) if mine else None
@@ -121,15 +122,18 @@ def gen(rng: Any, prop: str, tier: str) -> dict[str, Any]:
             if fq in views:
                 continue
             cols = new_cols(fq)
+            # a third of the tables declare a PRIMARY KEY over their first one or two columns (which makes those NOT NULL)
+            pk = [c[0] for c in cols[: rng.choice([1, 2])]] if rng.random() < 0.3 else []
+            cols = [[c[0], c[1], True if c[0] in pk else c[2]] for c in cols]
             comment = rng.choice([f"cm{step}", f"cm{step}", f"cm{step}", f"cm{step}", "", None, None, None, None])  # '' is a declared (empty) comment
-            coldefs = ", ".join(f"{c} {t}{' NOT NULL' if nn else ''}" for c, t, nn in cols)
+            coldefs = ", ".join(f"{c} {t}{' NOT NULL' if nn else ''}" for c, t, nn in cols) + (f", PRIMARY KEY ({', '.join(pk)})" if pk else "")
             ref = name if sc == "S1" and home and rng.random() < 0.5 else f"{db}.{sc}.{name}"
             if ref == name and sc != _cur_schema(ops, sid):
                 ref = f"{db}.{sc}.{name}"
             transient = "TRANSIENT " if rng.random() < 0.2 else ""  # a table property that is not a comment
             sql = f"CREATE {'OR REPLACE ' if replace else ''}{transient}TABLE {ref} ({coldefs})" + (f" COMMENT = '{comment}'" if comment is not None else "")
-            ops.append({"s": sid, "k": "exec", "sql": sql, "ddl": "create_table", "fq": list(fq), "cols": cols, "comment": comment})
-            tables[fq] = {"cols": cols, "comment": comment}
+            ops.append({"s": sid, "k": "exec", "sql": sql, "ddl": "create_table", "fq": list(fq), "cols": cols, "comment": comment, "pk": pk})
+            tables[fq] = {"cols": cols, "comment": comment, "pk": pk}
             last_cols[fq] = cols
             used_names.add(fq)
         elif kind == "drop" and mine:
@@ -138,21 +142,21 @@ def gen(rng: Any, prop: str, tier: str) -> dict[str, Any]:
                 continue
             ops.append({"s": sid, "k": "exec", "sql": f"DROP TABLE {'.'.join(fq)}", "ddl": "drop_table", "fq": list(fq)})
             del tables[fq]
-        elif kind == "alter_add" and mine:
-            fq = rng.choice(mine)
+        elif kind == "alter_add" and nopk:
+            fq = rng.choice(nopk)
             t = rng.choice(list(TYPES))
             c = f"X{step}"
             ops.append({"s": sid, "k": "exec", "sql": f"ALTER TABLE {'.'.join(fq)} ADD COLUMN {c} {t}", "ddl": "alter", "sub": "add", "fq": list(fq), "col": [c, t, False]})
             tables[fq]["cols"] = tables[fq]["cols"] + [[c, t, False]]
-        elif kind == "alter_drop" and mine:
-            fq = rng.choice(mine)
+        elif kind == "alter_drop" and nopk:
+            fq = rng.choice(nopk)
             if len(tables[fq]["cols"]) < 2 or any(v == fq for v in views.values()):
                 continue
             c = rng.choice(tables[fq]["cols"])
             ops.append({"s": sid, "k": "exec", "sql": f"ALTER TABLE {'.'.join(fq)} DROP COLUMN {c[0]}", "ddl": "alter", "sub": "drop", "fq": list(fq), "name": c[0]})
             tables[fq]["cols"] = [x for x in tables[fq]["cols"] if x[0] != c[0]]
-        elif kind == "alter_rename_col" and mine:
-            fq = rng.choice(mine)
+        elif kind == "alter_rename_col" and nopk:
+            fq = rng.choice(nopk)
             if any(v == fq for v in views.values()):
                 continue
             c = rng.choice(tables[fq]["cols"])
@@ -161,8 +165,8 @@ def gen(rng: Any, prop: str, tier: str) -> dict[str, Any]:
             new = f"R{step}"
             ops.append({"s": sid, "k": "exec", "sql": f"ALTER TABLE {'.'.join(fq)} RENAME COLUMN {c[0]} TO {new}", "ddl": "alter", "sub": "rename_col", "fq": list(fq), "name": c[0], "new": new})
             tables[fq]["cols"] = [[new, x[1], x[2]] if x[0] == c[0] else x for x in tables[fq]["cols"]]
-        elif kind == "rename_table" and mine and hz["rename_table"]:
-            fq = rng.choice(mine)
+        elif kind == "rename_table" and nopk and hz["rename_table"]:
+            fq = rng.choice(nopk)
             new = (fq[0], fq[1], f"RN{step}")
             if any(v == fq for v in views.values()):
                 continue
@@ -193,7 +197,7 @@ def gen(rng: Any, prop: str, tier: str) -> dict[str, Any]:
             fq = (db, rng.choice(my_schemas), f"CT{step}")
             sql = f"CREATE TABLE {'.'.join(fq)} AS SELECT * FROM {'.'.join(src)}" if kind == "ctas" else f"CREATE TABLE {'.'.join(fq)} CLONE {'.'.join(src)}"
             ops.append({"s": sid, "k": "exec", "sql": sql, "ddl": kind, "fq": list(fq), "src": list(src)})
-            tables[fq] = {"cols": [[c[0], c[1], False if kind == "ctas" else c[2]] for c in tables[src]["cols"]], "comment": tables[src]["comment"] if kind == "clone" else None}
+            tables[fq] = {"cols": [[c[0], c[1], False if kind == "ctas" else c[2]] for c in tables[src]["cols"]], "comment": tables[src]["comment"] if kind == "clone" else None, "pk": list(tables[src].get("pk", [])) if kind == "clone" else []}
             used_names.add(fq)
         elif kind == "schema":
             sc = "S2"
@@ -243,7 +247,7 @@ class MetaModel:
         d = op["ddl"]
         fq = tuple(op["fq"]) if "fq" in op else None
         if d == "create_table":
-            self.tables[fq] = {"cols": [list(c) for c in op["cols"]], "comment": op["comment"]}  # type: ignore[index]
+            self.tables[fq] = {"cols": [list(c) for c in op["cols"]], "comment": op["comment"], "pk": list(op.get("pk") or [])}  # type: ignore[index]
         elif d == "drop_table":
             self.tables.pop(fq, None)  # type: ignore[arg-type]
         elif d == "alter":
@@ -264,7 +268,7 @@ class MetaModel:
             self.views.pop(fq, None)  # type: ignore[arg-type]
         elif d in ("ctas", "clone"):
             src = self.tables[tuple(op["src"])]
-            self.tables[fq] = {"cols": [[c[0], c[1], False if d == "ctas" else c[2]] for c in src["cols"]], "comment": src["comment"] if d == "clone" else None}  # type: ignore[index]
+            self.tables[fq] = {"cols": [[c[0], c[1], False if d == "ctas" else c[2]] for c in src["cols"]], "comment": src["comment"] if d == "clone" else None, "pk": list(src.get("pk", [])) if d == "clone" else []}  # type: ignore[index]
         elif d == "create_schema":
             self.schemas.add(tuple(op["schema"]))  # type: ignore[arg-type]
         elif d == "drop_schema":
@@ -401,6 +405,15 @@ def _observe(world: World, m: MetaModel, hz: dict[str, bool], step_kind: str, ob
                     d = _cmp([r[1:5] for r in got], [r for r in rows_want if r[3] == sc])
                     if d:
                         return v_(f"show-{show.lower()}/schema-scope/{step_kind}", f"SHOW {show} IN SCHEMA lists exactly the current objects", d)
+            # --- SHOW PRIMARY KEYS in database / schema scope
+            keys_want = [[t[0], t[1], t[2], c] for t in dbt for c in m.tables[t].get("pk", [])]
+            for scope, want_rows in [("", keys_want), (f" IN DATABASE {db}", keys_want)] + [(f" IN SCHEMA {db}.{sc}", [r for r in keys_want if r[1] == sc]) for sc in sorted(s for dd, s in m.schemas if dd == db)]:
+                got = q(cur, f"SHOW PRIMARY KEYS{scope}")
+                if isinstance(got, dict):
+                    return v_(f"observer-raises/show-primary-keys/{step_kind}", "a metadata query failed", {"scope": scope, **got})
+                d = _cmp([r[1:5] for r in got], want_rows)
+                if d:
+                    return v_(f"show-primary-keys/{'schema' if 'SCHEMA' in scope else 'database'}-scope/{step_kind}", "SHOW PRIMARY KEYS lists exactly the key columns of the current tables in its scope", {"scope": scope.strip(), **d})
             got = q(cur, f"SHOW SCHEMAS IN DATABASE {db}")
             if not isinstance(got, dict):
                 names = sorted(r[1] for r in got if str(r[1]).lower() != "information_schema")
@@ -416,6 +429,16 @@ def _observe(world: World, m: MetaModel, hz: dict[str, bool], step_kind: str, ob
                 if [r[:4] for r in got] != want:
                     field = "columns" if [r[0] for r in got] != [r[0] for r in want] else "type" if [r[1] for r in got] != [r[1] for r in want] else "null?"
                     return v_(f"describe-table/{field}/{step_kind}", "DESCRIBE TABLE shows the columns as most recently declared", {"table": name, "observed": [r[:4] for r in got], "expected": want})
+                pkcols = m.tables[t].get("pk", [])
+                flags = [r[5] for r in got]
+                if hz.get("describe_pk_flag") and flags != ["Y" if c in pkcols else "N" for c, ty, nn in m.tables[t]["cols"]]:
+                    return v_(f"describe-table/primary-key-flag/{step_kind}", "DESCRIBE TABLE marks exactly the PRIMARY KEY columns", {"table": name, "observed": flags, "primary_key": pkcols})
+                got = q(cur, f"SHOW PRIMARY KEYS IN TABLE {name}")
+                if isinstance(got, dict):
+                    return v_(f"observer-raises/show-primary-keys-in-table/{step_kind}", "a metadata query failed", got)
+                d = _cmp([r[1:5] for r in got], [[t[0], t[1], t[2], c] for c in pkcols])
+                if d:
+                    return v_(f"show-primary-keys/table-scope/{step_kind}", "SHOW PRIMARY KEYS IN TABLE lists exactly that table's key columns", {"table": name, **d})
                 try:
                     cur.execute(f"SELECT * FROM {name}")
                     desc = [[x.name, x.type_code, x.precision, x.scale] for x in cur.description]
@@ -510,7 +533,7 @@ def run(case: dict[str, Any]) -> dict[str, Any]:
                 hazard_step = kind in ("alter_rename_col", "alter_rename_table", "ctas", "clone") or (kind == "create_table" and (" OR REPLACE " in op["sql"] or _recreated(case["ops"], op)))
                 # the known stale-comment finding is about re-creating WITHOUT a comment; a comment that was declared (even '') must show
                 declared = kind == "create_table" and op.get("comment") is not None and sig.startswith("information_schema.tables/comment")
-                if hazard_step and not declared and sig.endswith("/" + kind) and sig.split("/")[0] in ("information_schema.tables", "information_schema.columns", "describe-table", "select-star-description"):
+                if hazard_step and not declared and not sig.startswith("describe-table/primary-key-flag") and sig.endswith("/" + kind) and sig.split("/")[0] in ("information_schema.tables", "information_schema.columns", "describe-table", "select-star-description", "show-primary-keys"):
                     violation["signature"] = f"stale-meta/{'replace-or-recreate' if kind == 'create_table' else kind}/" + "/".join(sig.split("/")[:-1])
                 violation["detail"] = {"after": {k: op.get(k) for k in ("s", "sql", "k")}, "step": n, **(violation["detail"] if isinstance(violation["detail"], dict) else {"info": violation["detail"]})}
                 break
